@@ -53,12 +53,14 @@ func (p *pool) Acquire(ctx context.Context) (v wire) {
 			<-poolCtx.Done()
 			if context.Cause(poolCtx) != errAcquireComplete { // no need to broadcast if the poolCtx is cancelled explicitly.
 				p.cond.Broadcast()
+				verifPoint("pool.acquire.broadcasted", p, ctx)
 			}
 		}()
 	}
 
 retry:
 	for len(p.list) == 0 && p.size == p.cap && !p.down && ctx.Err() == nil {
+		verifPoint("pool.acquire.beforewait", p, ctx)
 		p.cond.Wait()
 	}
 
